@@ -80,67 +80,9 @@ def go_list(root):
     return rc, res, out
 
 
-def lookup(tree, comps):
-    """node reached by following comps (through symlinked directories)"""
-    n = tree
-    for c in comps:
-        if n["k"] == "l":
-            n = n.get("t") or {"k": "x"}
-        if n["k"] != "d":
-            return None
-        nxt = [e["v"] for e in n.get("e", []) if e["n"] == c]
-        if not nxt:
-            return None
-        n = nxt[0]
-    return n
-
-
 def safe_first(name):
     c = name.encode("utf-8")[:1]
     return bool(c) and (c.isalnum() and c[0] < 128 or c in b"._/" or c[0] >= 128)
-
-
-SQ_RUNE = re.compile(rb"^'([^\\'\n])'$", re.S)
-
-
-def unquote_single(p):
-    """what llgo turns a single-quoted argument into: strconv.Unquote accepts rune literals
-    (one rune or one escape sequence between single quotes; also the empty literal)"""
-    if len(p) < 2 or p[:1] != b"'" or p[-1:] != b"'":
-        return p
-    inner = p[1:-1]
-    if b"\\" not in inner:
-        if inner == b"":
-            return b""
-        try:
-            s = inner.decode("utf-8")
-        except UnicodeDecodeError:
-            return p
-        return inner if len(s) == 1 and s not in "'\n" else p
-    simple = {b"a": b"\a", b"b": b"\b", b"f": b"\f", b"n": b"\n", b"r": b"\r", b"t": b"\t", b"v": b"\v",
-              b"\\": b"\\", b"'": b"'"}
-    e = inner[1:]
-    if inner[:1] != b"\\":
-        return p
-    if e in simple:
-        return simple[e]
-    try:
-        if e[:1] == b"x" and len(e) == 3:
-            return bytes([int(e[1:], 16)])
-        if e[:1] == b"u" and len(e) == 5 or e[:1] == b"U" and len(e) == 9:
-            v = int(e[1:], 16)
-            if v < 0xD800 or 0xE000 <= v <= 0x10FFFF:
-                return chr(v).encode("utf-8")
-            return p
-        if len(e) == 3 and all(c in b"01234567" for c in e):
-            v = int(e, 8)
-            return bytes([v]) if v <= 255 else p
-    except ValueError:
-        pass
-    return p
-
-
-UNI_SPACE = re.compile("[\v\f\r\u0085\u00a0\u1680\u2000-\u200a\u2028\u2029\u202f\u205f\u3000]")
 
 
 def run(ck):
@@ -210,25 +152,18 @@ def run(ck):
                 ck.violation("embed-files-differ", "goembed.ResolvePatterns and the go tool embed different file sets", rep)
         elif lc == 0 and gc != 0:
             key = "embed-accepts-what-go-rejects"
-            if gc == 8:
-                m = re.search(r"in non-directory (.*)$", gerr)
-                nd_ = lookup(r["tree"], m.group(1).split("/")) if m else None
-                if nd_ is not None and nd_["k"] == "l":
-                    key = "embed-symlinked-parent-accepted"
-            elif gc == 9 and any(not safe_first(f) for f in lfiles):
+            if gc == 9 and any(not safe_first(f) for f in lfiles):
                 key = "embed-unsafe-first-byte-accepted"
             elif gc == 10 and len(set(f.casefold() for f in lfiles + ["x.go"])) < len(lfiles + ["x.go"]):
                 key = "embed-casefold-collision-accepted"
             ck.violation(key, "the go tool rejects the directive (%s) but goembed.ResolvePatterns embeds %d file(s)" % (gerr, len(lfiles)), rep)
         elif lc != 0 and gc == 0:
             key = "embed-rejects-what-go-embeds"
-            if r["root"] == "meta" and lc == 7:
-                key = "embed-pkgdir-glob-metachar"
             ck.violation(key, "goembed.ResolvePatterns fails (%s) but the go tool embeds %d file(s)" % (r.get("err"), len(gfiles)), rep)
         else:
             # both reject; with one pattern the reason must be the same (the go tool checks
             # its sorted pattern list, so with several patterns another one may fail first)
-            if len(want) == 1 and gc != lc and gc not in (8, 99) and not (r["root"] == "meta" and lc == 7):
+            if len(want) == 1 and gc != lc and gc != 99:
                 ck.violation("embed-error-class-differs", "both reject, for different reasons: llgo %r, go %r" % (r.get("err"), gerr), rep)
             else:
                 agree3 += 1
@@ -259,35 +194,9 @@ def run(ck):
         if not g_acc and not l_acc:
             agree3 += 1
             continue
-        # classify the disagreement narrowly
-        keys = []
-        if re.match(rb"^//[ \t\v\f\r]+go:embed", text) or re.match("^//\\s+go:embed", text.decode("utf-8", "replace")):
-            keys = ["embed-directive-after-space"]
-        else:
-            tx = text.decode("utf-8", "replace")
-            np_ = sorted(set(bytes.fromhex(p) for p in r.get("normpats", [])))
-            n_acc = r.get("normhas", False) and not r.get("normerr")
-            uni = bool(UNI_SPACE.search(tx))
-            sq_gp = sorted(set(unquote_single(p) for p in gp))
-            if uni and n_acc == g_acc and (not g_acc or np_ == gp):
-                keys = ["embed-unicode-space-not-separator"]
-            elif l_acc and g_acc and lp == sq_gp:
-                keys = ["embed-single-quoted-rune-unquoted"]
-            elif uni and n_acc and g_acc and np_ == sq_gp:
-                keys = ["embed-unicode-space-not-separator", "embed-single-quoted-rune-unquoted"]
-            elif l_acc and not g_acc and r.get("refdir") and r.get("referr") == 2:
-                keys = ["embed-quoted-then-nonspace-accepted"]
-            elif uni and n_acc and not g_acc and r.get("refdir") and r.get("referr") == 2:
-                keys = ["embed-quoted-then-nonspace-accepted", "embed-unicode-space-not-separator"]
-            elif uni and not l_acc and not n_acc and r.get("refdir") and g_acc:
-                # llgo rejects only because a Unicode space glued a quote to the next argument
-                keys = ["embed-unicode-space-not-separator"]
-        if not keys:
-            keys = ["embed-directive-parse-differs"]
-        for k in keys:
-            ck.violation(k, "ParsePatterns %s, the go tool %s" % (
-                "reads %r" % rep["llgo"]["patterns"] if l_acc else ("rejects the line" if has else "sees no directive"),
-                "reads %r" % rep["go"]["patterns"] if g_acc else "does not embed"), rep)
+        ck.violation("embed-directive-parse-differs", "ParsePatterns %s, the go tool %s" % (
+            "reads %r" % rep["llgo"]["patterns"] if l_acc else ("rejects the line" if has else "sees no directive"),
+            "reads %r" % rep["go"]["patterns"] if g_acc else "does not embed"), rep)
 
     # ---------- model vs implementation, evaluated inside Coq ----------
     hdr = "From LLGoV Require Import C16.Model.\nLocal Open Scope N_scope.\n"
@@ -305,7 +214,7 @@ def run(ck):
         kind, terms, model, eqb, raw, shard = j
         return kind, raw, ck.coq_mismatches(hdr, terms, model, eqb, "c16_" + kind, shard=shard)
 
-    res = [r for r in recs["res"] if r["root"] == "plain"]
+    res = recs["res"]
     compare("resolve",
             ["((%s, %s), %s)" % (tree_term(r["tree"]), coq_list([hb(p) for p in r.get("patshex", [])]),
                                  ("Err %d" % r["eclass"]) if r["eclass"] else "Ok " + files_term(r.get("files", [])))
